@@ -8,6 +8,13 @@ from . import c03
 CONTRACTS = [FieldInit()] + [UnaryOp(m) for m in UNARY] + [BinaryOp(m) for m in ('__add__', '__mul__', '__truediv__', '__rsub__')] + \
     [Component(), NormGetter(), Orientation(), ValidAsField()] + [ComplexPart(m) for m in ('real', 'imag', 'conjugate', 'abs', 'phase')] + \
     [TwoFieldOp(m) for m in ('dot', 'cross', '__lshift__')]
+# operations that MAP cells: the validity clauses of their contracts (proved with the data clauses under C07 / C12 / C04)
+from .c07 import FieldPad, FieldSel, MeshSel, MeshPad, Region2Slices, MeshGetitemRegion
+from .c12 import FieldRotate90
+from .c04 import FieldDiff, SplitDiffCombineUse
+from .geom import RegionRotate90
+from .shared import Point2Index
+CONTRACTS += [FieldPad(), FieldRotate90(), FieldDiff()]
 _BY_NAME = {c.name: c for c in CONTRACTS}
 setup_engine = c03.setup_engine
 
@@ -17,7 +24,7 @@ def contract(name):
 
 
 def contracts_for_use():
-    return [RegionInit(), MeshInit(), _BY_NAME['Field.__init__']]
+    return [RegionInit(), MeshInit(), _BY_NAME['Field.__init__'], Point2Index(), MeshSel(), MeshPad(), FieldPad(), Region2Slices(), SplitDiffCombineUse(), RegionRotate90()]
 
 
 INLINED = c03.INLINED
